@@ -214,6 +214,7 @@ fn render(tpl: usize, prefix: &str, msg: &str, pos: u64, len: Option<u64>) -> Ve
 /// of that history, not the end of the harness (re-runs of edited histories keep calling `run_case`: there a panic may be
 /// the harness's own, on a history that refers to bars that no longer exist)
 pub fn run_case_caught(c: &Case) -> (String, String) {
+    crate::common::about_to_run(&encode(c));
     match std::panic::catch_unwind(std::panic::AssertUnwindSafe(|| run_case(c))) {
         Ok(x) => x,
         Err(_) => ("panic".to_string(), "FAIL panic: an operation of this history panics inside the crate".to_string()),
